@@ -516,6 +516,9 @@ class J1939_22:
             return
 
         src_address = mid.source_address
+        if src_address == ParameterGroupNumber.Address.GLOBAL:
+            # the global address is no legal source address (and, swapped, it would match the key of our own broadcast sessions)
+            return
         control_byte  = data[0] & 0xF
         session_num   = (data[0] >> 4) & 0xF
         message_size  = (data[1]  & 0xFF) | ((data[2]  & 0xFF) << 8) | ((data[3] & 0xFF)  << 16)
